@@ -7,7 +7,12 @@ POST = 'catbuffer/parser/catparser/AstPostProcessor.py'
 EXPAND = (
 	GenModule('ExpandOps')
 	# prefix if '__value__' == self.name else f'{prefix}_{self.name}'
-	.anchor(AST, 'StructField.copy', {0: ('value_name', 'string'), 1: ('value_eq_op', 'op'), 2: ('field_sep', 'string')})
+	# sizeof target: prefix if '__value__' == value else f'{prefix}_{value}'
+	.anchor(AST, 'StructField.copy', {
+		1: ('sizeof_value_name', 'string'), 2: ('sizeof_value_eq_op', 'op'), 3: ('sizeof_sep', 'string'),
+		4: ('value_name', 'string'), 5: ('value_eq_op', 'op'), 6: ('field_sep', 'string')})
+	# 'sizeof' == self.disposition
+	.anchor(AST, 'StructField.is_size_reference', {0: ('sizeof_str', 'string'), 1: ('sizeof_op', 'op')})
 	# f'{prefix}_{self.size}', f'{prefix}_{self.sort_key}'
 	.anchor(AST, 'Array.copy', {1: ('array_size_sep', 'string'), 2: ('array_sort_key_sep', 'string')})
 	.anchor(AST, 'Conditional.copy', {0: ('cond_sep', 'string')})
